@@ -4,7 +4,7 @@
    circumscribed edges, the rounded-rectangle box and the winding of the trig outlines are decided by
    the oracles on sampled outputs (exploration), see DESIGN.md. *)
 From Coq Require Import Reals ZArith List Lia.
-From SCAD Require Import Base.Num Base.NumR Base.Vec Base.Vec_proofs Base.Rot_proofs Geom.Poly Geom.Dim2 Geom.Dim2_proofs Geom.Dim2_winding Geom.Simple.
+From SCAD Require Import Base.Num Base.NumR Base.Vec Base.Vec_proofs Base.Rot_proofs Geom.Poly Geom.Dim2 Geom.Dim2_proofs Geom.Dim2_winding Geom.Simple Geom.Star_simple Geom.RR_simple.
 Import ListNotations.
 Local Open Scope R_scope.
 
@@ -113,3 +113,13 @@ Theorem C07_chamfer_simple : forall size oversize : R, (0 < oversize)%R -> (over
 Proof. exact chamfer_simple. Qed.
 Theorem C07_chamfer_not_simple_from_size_on : forall size oversize : R, (0 < size)%R -> (size <= oversize)%R -> ~ simple (chamfer size oversize).
 Proof. exact chamfer_not_simple. Qed.
+(* the star is simple for every number of points >= 2 and all positive radii (inner < outer or not): two edges that are
+   not neighbours are separated by a line through the origin half a step outside one of them, the shorter way round *)
+Theorem C07_star_simple : forall (n : Z) (inner outer : R), (2 <= n)%Z -> (0 < inner)%R -> (0 < outer)%R -> simple (star n inner outer).
+Proof. exact star_simple. Qed.
+(* the rounded rectangle, centred or not, is simple for all 0 < r < min(w,h)/2 and segments >= 1: edges of different
+   zones (four corner arcs, four straight sides) have disjoint extents along x or y; two chords of one arc are separated
+   because three points of an arc turn clockwise *)
+Theorem C07_rounded_rect_simple : forall (w h r : R) (segments : Z) (center : bool) pts, (0 < r)%R -> (2 * r < w)%R -> (2 * r < h)%R -> (1 <= segments)%Z ->
+  rounded_rect w h r segments center = Some pts -> simple pts.
+Proof. exact rounded_rect_simple. Qed.
